@@ -142,6 +142,10 @@ def cnt_depth(p, res):
                 elif isinstance(st.value, ast.BinOp) and isinstance(st.value.op, (ast.Add, ast.Sub)) and src_of(st.value.left) == cexpr \
                         and p.try_const(f, st.value.right) == 1:
                     res.ok('%s: %s' % (f.short, src_of(st)))
+                elif isinstance(st.value, ast.Call) and isinstance(st.value.func, ast.Name) and st.value.func.id == 'min' and len(st.value.args) == 2 \
+                        and any(p.try_const(f, a) == 0 and not isinstance(p.try_const(f, a), bool) for a in st.value.args) \
+                        and any(cexpr in src_of(a) for a in st.value.args):
+                    res.bad(F('CNT-DEPTH', f, st, src_of(st), 'depth counter %s is capped at 0 from above (min): it can never count a nesting level, so every nested closer ends the context' % cexpr))
                 else:
                     res.undecided('%s: %s' % (f.short, src_of(st)), 'depth counter %s is assigned a computed value: whether it still counts by one is not decided' % cexpr)
         if n == 0:
@@ -241,6 +245,19 @@ def sib_quote(p, res):
         from .tablecheck import check_table
         if fq != 'scanner_utils.eat_quoted' and fq != 'css_matcher.scan.literal':        # those two tables belong to SIB-ESCAPE
             check_table(p, res, 'SIB-QUOTE', fq, 'a quoted string is closed by the same quote character that opened it')
+        # positive detector, independent of how the opener is remembered: the first thing the scanning loop tries to eat is the
+        # closing quote; a predicate over quote characters or a fixed quote constant there closes the string at the wrong kind
+        loops0 = [n for n in f.body_nodes() if isinstance(n, ast.While)]
+        if len(loops0) == 1:
+            cl = sorted([n for n in ast.walk(loops0[0]) if isinstance(n, ast.Call) and src_of(n.func) == '%s.eat' % c and n.args], key=lambda n: (n.lineno, n.col_offset))
+            if cl:
+                a0 = cl[0].args[0]
+                ent = p.resolve_name(f, a0.id) if isinstance(a0, ast.Name) and a0.id not in f.locals and a0.id not in f.params else None
+                cv = p.try_const(f, a0)
+                if (ent is not None and ent.kind == 'func' and 'quote' in a0.id.lower()) or cv in ('"', "'", 34, 39):
+                    res.bad(F('SIB-QUOTE', f, cl[0], src_of(cl[0]),
+                              'the closing quote must be the very character that opened the string; this test ends the string at either kind of quote / at a fixed kind'))
+                    continue
         if len(peeks) != 1:
             res.undecided('%s: opening quote' % fq, 'one local holding <scanner>.peek() expected')
             continue
@@ -265,6 +282,24 @@ def sib_quote(p, res):
             res.ok('%s: opener tested with is_quote' % f.short)
         else:
             res.undecided('%s: is_quote test of the opener' % f.short, 'string must start at a quote character')
+    # backward: consume_quoted scans back to the quote that matches the closing one it started from
+    f = p.func('extract_abbreviation.is_html.consume_quoted')
+    loops = [n for n in f.body_nodes() if isinstance(n, ast.While)]
+    if len(loops) == 1:
+        preds = [n for n in ast.walk(loops[0]) if isinstance(n, ast.Call) and isinstance(n.func, ast.Name) and 'quote' in n.func.id.lower()
+                 and isinstance(p.resolve_call(f, n), list) and n.args
+                 and any(isinstance(x, ast.Call) and isinstance(x.func, ast.Attribute) and x.func.attr in ('previous', 'peek') for x in ast.walk(n.args[0]))]
+        cmps = [n for n in ast.walk(loops[0]) if isinstance(n, ast.Compare) and len(n.ops) == 1 and isinstance(n.ops[0], (ast.Eq, ast.NotEq))
+                and any(isinstance(x, ast.Call) and isinstance(x.func, ast.Attribute) and x.func.attr == 'previous' for x in ast.walk(n))
+                and any(isinstance(x, ast.Name) and x.id in f.locals for x in (n.left, n.comparators[0]))]
+        if preds and not cmps:
+            res.bad(F('SIB-QUOTE', f, preds[0], src_of(preds[0]), 'the backward scan of a quoted value stops at any quote character: it must stop at the kind of quote that closes the value (the other kind may occur inside it)'))
+        elif cmps:
+            res.ok('consume_quoted: scans back to the same quote character (%s)' % src_of(cmps[0]))
+        else:
+            res.undecided('consume_quoted: opening quote test', 'comparison of previous() with the remembered closing quote expected')
+    else:
+        res.undecided('consume_quoted: scanning loop', 'one while loop expected')
     # token-level: parser.quoted closes with a quote of the same kind
     f = p.func('abbreviation.parser.quoted')
     from .tablecheck import check_table
